@@ -31,6 +31,7 @@ type Obligation struct {
 	Note        string
 	LastRet     bool
 	RetLine     string // source text of the return statement (post obligations)
+	Excl        [][2]int // ranges of vc.lines whose assertions are not premises of this obligation (summarised inlined calls)
 	noPathSplit bool
 }
 
@@ -43,6 +44,7 @@ type VC struct {
 	obls       []*Obligation
 	nfresh     int
 	usesSets   bool
+	excl       [][2]int // active exclusion ranges, copied into every new obligation
 	quantDepth int
 	usesQ      bool
 	strLits    map[string]*Term
@@ -177,6 +179,9 @@ func (vc *VC) Assume(guard, fact *Term) {
 }
 
 func (vc *VC) Oblige(o *Obligation) {
+	if o.Excl == nil && len(vc.excl) > 0 {
+		o.Excl = append([][2]int{}, vc.excl...)
+	}
 	// split conjunctions into separate, smaller queries
 	if !o.WantSat && o.Goal.Op == "and" && len(o.Goal.Bound) == 0 && len(o.Goal.Args) > 1 && vc.quantDepth == 0 {
 		for i, g := range o.Goal.Args {
